@@ -35,6 +35,8 @@ pub enum Decision {
     StallMidBody,
     /// gRPC: head and the whole message, but never the `grpc-status` trailer.
     StallBeforeTrailers,
+    /// gRPC: head, then the stream is reset (the reply is cut off while its body is read).
+    ResetAfterHead,
     /// close the connection as soon as a request starts arriving, without reading its body.
     DropBefore,
     /// read the whole request, close the connection without a reply.
@@ -49,6 +51,7 @@ impl Decision {
             "sth" => Decision::StallAfterHead,
             "stm" => Decision::StallMidBody,
             "stt" => Decision::StallBeforeTrailers,
+            "rsb" => Decision::ResetAfterHead,
             "dropb" => Decision::DropBefore,
             "dropa" => Decision::DropAfter,
             _ => {
@@ -70,6 +73,7 @@ impl Decision {
             Decision::StallAfterHead => "sth".into(),
             Decision::StallMidBody => "stm".into(),
             Decision::StallBeforeTrailers => "stt".into(),
+            Decision::ResetAfterHead => "rsb".into(),
             Decision::DropBefore => "dropb".into(),
             Decision::DropAfter => "dropa".into(),
             Decision::Status(n) => format!("s{n}"),
@@ -176,7 +180,7 @@ impl Endpoint {
     }
 
     #[allow(clippy::too_many_arguments)]
-    fn log_req(&self, conn: u64, path: &str, dec: Decision, ids: Option<Result<Vec<i64>, String>>, enc: &str, gzip: bool, bytes: usize, stalled_conn: bool) {
+    fn log_req(&self, conn: u64, path: &str, dec: Decision, ids: Option<Result<Vec<i64>, String>>, enc: &str, gzip: bool, bytes: usize, stalled_conn: bool, meta: (&str, &str)) {
         let n = self.nreq.fetch_add(1, Ordering::SeqCst);
         let sig = Signal::of_path(path);
         let (idv, err) = match ids {
@@ -189,6 +193,7 @@ impl Endpoint {
             "ev": "Req", "ep": self.sig.name(), "sig": sig.map(|s| s.name()), "path": path, "conn": conn,
             "n": n, "ids": idv, "dec": if stalled_conn { "after_stall".to_string() } else { dec.name() },
             "ack": dec.is_ack() && !stalled_conn && err.is_null(), "err": err, "enc": enc, "gzip": gzip, "bytes": bytes,
+            "res": meta.0, "hdr": meta.1,
         }));
     }
 }
@@ -284,6 +289,9 @@ impl Collector {
     }
 }
 
+/// The custom request header scenarios configure (possibly several times).
+pub const TAG_HEADER: &str = "x-vh-tag";
+
 fn find(hay: &[u8], needle: &[u8]) -> Option<usize> {
     hay.windows(needle.len()).position(|w| w == needle)
 }
@@ -299,20 +307,20 @@ async fn peer_closed(sock: &TcpStream) -> bool {
     matches!(sock.ready(tokio::io::Interest::READABLE).await, Ok(r) if r.is_read_closed())
 }
 
-fn decode_body(sig: Option<Signal>, content_type: &str, gzip: bool, body: &[u8]) -> (Result<Vec<i64>, String>, &'static str) {
-    let Some(sig) = sig else { return (Err("unknown path".into()), "?") };
+fn decode_body(sig: Option<Signal>, content_type: &str, gzip: bool, body: &[u8]) -> (Result<Vec<i64>, String>, &'static str, String) {
+    let Some(sig) = sig else { return (Err("unknown path".into()), "?", String::new()) };
     let raw = if gzip {
         match decode::gunzip(body) {
             Ok(r) => r,
-            Err(e) => return (Err(e), "?"),
+            Err(e) => return (Err(e), "?", String::new()),
         }
     } else {
         body.to_vec()
     };
     match content_type {
-        "application/json" => (decode::ids_json(sig, &raw), "json"),
-        "application/x-protobuf" => (decode::ids_proto(sig, &raw), "proto"),
-        other => (Err(format!("unexpected content-type {other}")), "?"),
+        "application/json" => (decode::ids_json(sig, &raw), "json", decode::resource_tag_json(sig, &raw)),
+        "application/x-protobuf" => (decode::ids_proto(sig, &raw), "proto", decode::resource_tag_proto(sig, &raw)),
+        other => (Err(format!("unexpected content-type {other}")), "?", String::new()),
     }
 }
 
@@ -331,7 +339,7 @@ async fn serve_http1(mut sock: TcpStream, conn: u64, ep: Arc<Endpoint>) {
             // a request is arriving; the next decision may have changed while we waited
             if ep.peek_drop_before() {
                 let d = ep.pop();
-                ep.log_req(conn, "", d, None, "?", false, 0, false);
+                ep.log_req(conn, "", d, None, "?", false, 0, false, ("", ""));
                 return; // closes with unread data: RST
             }
         }
@@ -359,6 +367,7 @@ async fn serve_http1(mut sock: TcpStream, conn: u64, ep: Arc<Endpoint>) {
         let mut clen = 0usize;
         let mut ctype = String::new();
         let mut cenc = String::new();
+        let mut tags: Vec<String> = Vec::new(); // values of the custom header, in order
         for l in lines {
             if let Some((k, v)) = l.split_once(':') {
                 let k = k.trim().to_ascii_lowercase();
@@ -367,6 +376,7 @@ async fn serve_http1(mut sock: TcpStream, conn: u64, ep: Arc<Endpoint>) {
                     "content-length" => clen = v.parse().unwrap_or(0),
                     "content-type" => ctype = v.to_string(),
                     "content-encoding" => cenc = v.to_string(),
+                    TAG_HEADER => tags.push(v.to_string()),
                     _ => {}
                 }
             }
@@ -381,7 +391,8 @@ async fn serve_http1(mut sock: TcpStream, conn: u64, ep: Arc<Endpoint>) {
         let body: Vec<u8> = buf[head_end + 4..total].to_vec();
         buf.drain(..total);
         let sig = Signal::of_path(&path);
-        let (mut ids, enc) = decode_body(sig, &ctype, cenc == "gzip", &body);
+        let (mut ids, enc, res) = decode_body(sig, &ctype, cenc == "gzip", &body);
+        let hdr = tags.join(",");
         if method != "POST" {
             ids = Err(format!("method {method}"));
         }
@@ -389,7 +400,7 @@ async fn serve_http1(mut sock: TcpStream, conn: u64, ep: Arc<Endpoint>) {
             ids = Err(format!("content-encoding {cenc}"));
         }
         if stalled {
-            ep.log_req(conn, &path, Decision::Stall, Some(ids), enc, cenc == "gzip", body.len(), true);
+            ep.log_req(conn, &path, Decision::Stall, Some(ids), enc, cenc == "gzip", body.len(), true, (&res, &hdr));
             continue;
         }
         // The client may have given up on this request (its own timeout) before we got to it:
@@ -406,7 +417,7 @@ async fn serve_http1(mut sock: TcpStream, conn: u64, ep: Arc<Endpoint>) {
         }
         ep.pass_gate(conn).await;
         let d = ep.pop();
-        ep.log_req(conn, &path, d, Some(ids), enc, cenc == "gzip", body.len(), false);
+        ep.log_req(conn, &path, d, Some(ids), enc, cenc == "gzip", body.len(), false, (&res, &hdr));
         match d {
             Decision::Ack => {
                 if sock.write_all(b"HTTP/1.1 200 OK\r\ncontent-length: 0\r\n\r\n").await.is_err() {
@@ -429,6 +440,7 @@ async fn serve_http1(mut sock: TcpStream, conn: u64, ep: Arc<Endpoint>) {
             // HTTP/1: the status line is the whole verdict; a 200 whose announced body never
             // comes is still an acknowledgement (not generated for HTTP/1 scenarios)
             Decision::StallAfterHead | Decision::StallMidBody | Decision::StallBeforeTrailers => stalled = true,
+            Decision::ResetAfterHead => return,
             Decision::DropBefore | Decision::DropAfter => return,
         }
     }
@@ -445,7 +457,7 @@ async fn serve_h2(sock: TcpStream, conn: u64, ep: Arc<Endpoint>) {
         }
         if ep.peek_drop_before() {
             let d = ep.pop();
-            ep.log_req(conn, "", d, None, "?", false, 0, false);
+            ep.log_req(conn, "", d, None, "?", false, 0, false, ("", ""));
             return;
         }
     }
@@ -459,7 +471,7 @@ async fn serve_h2(sock: TcpStream, conn: u64, ep: Arc<Endpoint>) {
                 let Some(Ok((req, respond))) = r else { return };
                 if ep.peek_drop_before() && !stalled.load(Ordering::SeqCst) {
                     let d = ep.pop();
-                    ep.log_req(conn, req.uri().path(), d, None, "?", false, 0, false);
+                    ep.log_req(conn, req.uri().path(), d, None, "?", false, 0, false, ("", ""));
                     return; // dropping the connection closes the socket
                 }
                 let (ep2, kill2, st2) = (ep.clone(), kill.clone(), stalled.clone());
@@ -484,6 +496,7 @@ async fn h2_stream(
     let ctype = hdr("content-type");
     let genc = hdr("grpc-encoding");
     let method = req.method().to_string();
+    let hdr = req.headers().get_all(TAG_HEADER).iter().filter_map(|v| v.to_str().ok()).collect::<Vec<_>>().join(",");
     let mut body = req.into_body();
     let mut data: Vec<u8> = Vec::new();
     while let Some(chunk) = body.data().await {
@@ -493,6 +506,7 @@ async fn h2_stream(
     }
     let sig = Signal::of_path(&path);
     // gRPC framing: exactly one message whose length prefix covers the rest of the body
+    let mut res = String::new();
     let ids: Result<Vec<i64>, String> = (|| {
         if method != "POST" {
             return Err(format!("method {method}"));
@@ -510,11 +524,12 @@ async fn h2_stream(
         }
         let raw = if compressed { decode::gunzip(payload)? } else { payload.to_vec() };
         let sig = sig.ok_or_else(|| format!("unknown path {path}"))?;
+        res = decode::resource_tag_proto(sig, &raw);
         decode::ids_proto(sig, &raw)
     })();
     let gz = data.first() == Some(&1);
     if stalled.load(Ordering::SeqCst) {
-        ep.log_req(conn, &path, Decision::Stall, Some(ids), "proto", gz, data.len(), true);
+        ep.log_req(conn, &path, Decision::Stall, Some(ids), "proto", gz, data.len(), true, (&res, &hdr));
         return std::future::pending::<()>().await;
     }
     // the client gave up on the call (reset the stream or dropped the connection) before we
@@ -525,7 +540,7 @@ async fn h2_stream(
     }
     ep.pass_gate(conn).await;
     let d = ep.pop();
-    ep.log_req(conn, &path, d, Some(ids), "proto", gz, data.len(), false);
+    ep.log_req(conn, &path, d, Some(ids), "proto", gz, data.len(), false, (&res, &hdr));
     let resp = |status: u16| http::Response::builder().status(status).header("content-type", "application/grpc").body(()).unwrap();
     match d {
         Decision::Ack | Decision::GrpcTrailer(_) => {
@@ -567,6 +582,14 @@ async fn h2_stream(
             }
             std::future::pending::<()>().await;
             drop(send);
+        }
+        Decision::ResetAfterHead => {
+            let Ok(mut send) = respond.send_response(resp(200), false) else { return };
+            let _ = send.send_data(Bytes::from_static(&[0, 0]), false);
+            // let the client take the head first (a reset that overtakes it fails the request
+            // before there is a response at all, which is the "dropa" phase)
+            tokio::time::sleep(std::time::Duration::from_millis(60)).await;
+            send.send_reset(h2::Reason::INTERNAL_ERROR);
         }
         Decision::Stall => {
             stalled.store(true, Ordering::SeqCst);
